@@ -339,6 +339,8 @@ def _check_state(P: Program, rep: Report) -> None:  # noqa: C901
     # module-level caches written by hand:  name[key] = ast  in a parse-path function of API
     # process-global containers written by the constructor must be re-initialised per parse
     G = globalsx.inventory(P)
+    from sa.callgraph import callgraph as _callgraph
+    cg_ = _callgraph(P)
     starts = [P.functions[q] for q in ("vtlengine.AST.ASTConstructor.ASTVisitor.visitStart", "vtlengine.API.create_ast") if q in P.functions]
     for q, gv in sorted(G.items()):
         writers = [w for w in list(gv.writers) + list(gv.mutators) if w in path]
@@ -353,6 +355,37 @@ def _check_state(P: Program, rep: Report) -> None:  # noqa: C901
                     reset = True
                 if isinstance(n_, ast.Assign) and any(src(t).split(".")[-1] == last for t in n_.targets) and isinstance(n_.value, (ast.Dict, ast.List, ast.Set, ast.Call)):
                     reset = True
+        if reset:
+            # the re-initialisation must come FIRST: on no path of the start function may a call that reaches a writer or reader of the
+            # container run before it (a reset at the end only happens when the parse succeeds: a rejected script leaves its entries behind)
+            users = set(gv.writers) | set(gv.mutators) | set(gv.readers)
+            for s_ in starts:
+                resets_ = []
+                for n_ in walk_no_nested(s_.node):
+                    if isinstance(n_, ast.Call) and isinstance(n_.func, ast.Attribute) and n_.func.attr == "clear" and src(n_.func.value).split(".")[-1] == last:
+                        resets_.append(n_)
+                    if isinstance(n_, ast.Assign) and any(src(t).split(".")[-1] == last for t in n_.targets) and isinstance(n_.value, (ast.Dict, ast.List, ast.Set, ast.Call)):
+                        resets_.append(n_)
+                if not resets_:
+                    continue
+                g_ = CFG(s_.node)
+                rnodes = [x for x in g_.nodes if x.stmt is not None and any(any(y is r_ for y in ast.walk(x.stmt)) for r_ in resets_)]
+                for x in g_.nodes:
+                    if x in rnodes or x.stmt is None:
+                        continue
+                    hits = []
+                    for c_ in g_.calls_at(x):
+                        for tq in P.resolve_call(s_, c_):
+                            if tq in users or (cg_.reachable_from([tq]) & users):
+                                hits.append(tq)
+                    if not hits:
+                        continue
+                    p_ = g_.path_avoiding(g_.entry, lambda n, x=x: n is x, lambda n: n in rnodes, follow_exc=False)
+                    if p_ is not None:
+                        rep.add(_f("R23.3", f"global-reset-order/{q}", s_.module.rel, x.lineno, s_.qualname,
+                                   f"`{q}` is re-initialised in {s_.name}, but only AFTER `{src(x.stmt)[:60]}` has used it ({hits[0].split('.')[-1]}): a parse that raises before the reset "
+                                   f"leaves the entries of the rejected script in place and the next parse reads them"))
+                        break
         if not reset:
             w = P.functions[writers[0]]
             line = (gv.mutators.get(writers[0]) or gv.writers.get(writers[0]) or [w.node.lineno])[0]
